@@ -21,14 +21,22 @@ class SymRng(_random.Random):
     gauss/normalvariate -> unconstrained SReal;  expovariate -> SReal > 0
     """
 
-    def __init__(self, tag="rng", uniform_mode="real", log=None):
+    def __init__(self, tag="rng", uniform_mode="real", log=None, max_draws=None):
         super().__init__(0)
+        if max_draws is not None:
+            self.MAX_DRAWS = max_draws
         self.tag = tag
         self.uniform_mode = uniform_mode
         self.draws = []  # (kind, proxy-or-value) in order, for replay
 
+    MAX_DRAWS = 300
+
     def _rec(self, kind, v):
         self.draws.append((kind, v))
+        if len(self.draws) > self.MAX_DRAWS:
+            # e.g. `while j == i: j = rng.randint(...)`: the branch that never leaves the
+            # loop has probability zero; close it instead of following it forever
+            raise symx.Unsupported("random-draw budget of one path exhausted (probability-zero rejection loop)")
         return v
 
     def random(self):
